@@ -9,6 +9,13 @@ def repo_commits(prefix):
     return [l.split()[0] for l in out.splitlines() if l.split(" ", 1)[1].startswith(prefix)]
 
 CLAIMS = {
+    "C15": dict(
+        level="exploration",
+        technique="property-based testing with a reference formula plus metamorphic relations between renders (monotonicity along a ray, mirroring, rigid motion, strength 0, listener drop / slot reuse, tween end state, nesting) through the real manager",
+        text="Generated listener / emitter geometries (coincident, axis-aligned, in range, up to 1e5 units away), distance ranges, attenuation curves, strengths and stereo inputs are rendered through the manager; the steady-state frame must match the documented level = attenuation(distance) x ear-gain model (f64) and satisfy one of ten relations between independent renders. Search with shrinking.",
+        note="Tolerances scale with coordinate magnitude (f32 positions), the steepness of the attenuation curve and the jump of the decibel scale at -60 dB; all stated in the evidence.",
+        design="5/C15",
+    ),
     "C17": dict(
         level="exploration",
         technique="model-based property testing: LFO driven directly against an independent waveform/phase model over generated set_*/update histories, and modulator -> parameter chains through the real renderer with probe modulators and probe effects recording per-internal-buffer values",
